@@ -20,13 +20,13 @@ package main
 
 import (
 	"fmt"
-	"os"
-	"time"
 	"go/constant"
 	"go/token"
 	"go/types"
+	"os"
 	"sort"
 	"strings"
+	"time"
 
 	"golang.org/x/tools/go/ssa"
 )
@@ -74,18 +74,18 @@ type loopInfo struct {
 }
 
 type fnRes struct {
-	fn        *ssa.Function
-	obs       map[ssa.Instruction]map[ssa.Value]aval
-	ret       aval
-	retF      fval
-	exitCells map[string]aval
-	weak      map[string]aval
-	callArgs  map[*ssa.Function][]aval
+	fn         *ssa.Function
+	obs        map[ssa.Instruction]map[ssa.Value]aval
+	ret        aval
+	retF       fval
+	exitCells  map[string]aval
+	weak       map[string]aval
+	callArgs   map[*ssa.Function][]aval
 	vals       map[ssa.Value]aval // every int value, joined over all contexts
 	fieldsRead map[string]bool
 	retsUsed   map[*ssa.Function]bool
-	widened   bool
-	nctx      int
+	widened    bool
+	nctx       int
 }
 
 type rangeEngine struct {
@@ -219,7 +219,7 @@ func (e *rangeEngine) solve() {
 			}
 		}
 	}
-	readers := map[string]map[*ssa.Function]bool{}   // field -> functions that fell back to its invariant
+	readers := map[string]map[*ssa.Function]bool{}        // field -> functions that fell back to its invariant
 	callers := map[*ssa.Function]map[*ssa.Function]bool{} // callee -> callers using its return summary
 	fieldContrib := map[string]map[*ssa.Function]aval{}
 	paramContrib := map[*ssa.Function]map[*ssa.Function][]aval{}
@@ -2333,7 +2333,6 @@ func isSearchHelper(fn *ssa.Function) bool {
 	return counter && zero
 }
 
-
 // sameObject: do two SSA values name the same object (the same value, or loads of the same field of the same object)?
 func sameObject(a, b ssa.Value, depth int) bool {
 	if a == b {
@@ -2445,7 +2444,6 @@ func min64(a, b int64) int64 {
 	return b
 }
 
-
 // relFact: x op y holds between parameters and constants of a function.
 type relFact struct {
 	x, y ssa.Value
@@ -2531,7 +2529,6 @@ func returnFacts(fn *ssa.Function) []relFact {
 	return out
 }
 
-
 // capturedRange: the range of a variable a closure captured, when the enclosing function assigns it exactly once
 // with a constant, the length of a literal table, or a value whose range that function's analysis knows.
 func (a *fnAnalysis) capturedRange(fv *ssa.FreeVar) aval {
@@ -2581,7 +2578,6 @@ func (a *fnAnalysis) capturedRange(fv *ssa.FreeVar) aval {
 	}
 	return topVal()
 }
-
 
 // localMapValues: the join of the integer values stored into a local map, and zero (the value of a missing key).
 func (a *fnAnalysis) localMapValues(st *rstate, mm *ssa.MakeMap) aval {
